@@ -1,6 +1,8 @@
 package checks
 
 import (
+	"net"
+	"time"
 	"bytes"
 	"encoding/binary"
 	"errors"
@@ -55,7 +57,7 @@ func wtHeader(b []byte) (ok, bin bool, n uint64, hlen int) {
 type c15Case struct {
 	Stream   string `json:"stream_hex"`
 	Cut      int    `json:"cut"`
-	Variant  string `json:"variant"` // eof | error
+	Variant  string `json:"variant"` // eof | error | timeout (transient: one read fails, the application sets a new deadline)
 	Limit    int64  `json:"read_limit"`
 	Pattern  string `json:"pattern"` // all | partial | zero | readmessage
 	RBuf     int    `json:"read_buf"`
@@ -68,10 +70,18 @@ type c15Case struct {
 func runC15(stream []byte, cs c15Case, rng *rand.Rand) (key, msg string, msgsSeen int) {
 	data := stream[:cs.Cut]
 	sa, sb := fakenet.StreamPipe()
-	sa.Conn.Write(data)
-	if cs.Variant == "eof" {
+	switch cs.Variant {
+	case "eof":
+		sa.Conn.Write(data)
 		sa.Close()
-	} else {
+	case "timeout":
+		// the whole stream is there, but one read at the cut fails with a timeout (a read
+		// deadline that expired); the application then sets a new deadline and reads on
+		sa.Conn.Write(stream)
+		sa.Close() // (a reader that wrongly goes on must run into the end, not wait for ever)
+		sb.Conn.FailReadsOnceAt(int64(len(data)), fakenet.ErrTimeout)
+	default:
+		sa.Conn.Write(data)
 		sb.Conn.FailReadsAt(int64(len(data)), fakenet.ErrInjected)
 	}
 	if cs.Frag > 0 {
@@ -96,6 +106,10 @@ func runC15(stream []byte, cs c15Case, rng *rand.Rand) (key, msg string, msgsSee
 	}()
 
 	terminal := func(where string, err error) (string, string) {
+		if cs.Variant == "timeout" {
+			// a new deadline does not make a failed connection readable again
+			conn.SetReadDeadline(time.Now().Add(time.Hour))
+		}
 		// sticky: every later read reports the same failure
 		for k := 0; k < 3; k++ {
 			_, _, e2 := conn.NextReader()
@@ -115,6 +129,11 @@ func runC15(stream []byte, cs c15Case, rng *rand.Rand) (key, msg string, msgsSee
 		if cs.Variant == "error" {
 			return errors.Is(err, fakenet.ErrInjected)
 		}
+		if cs.Variant == "timeout" {
+			// (the connection re-wraps temporary network errors; what matters is a timeout error)
+			ne, ok := err.(net.Error)
+			return ok && ne.Timeout()
+		}
 		return true
 	}
 	endErrOK := func(err error) bool {
@@ -123,6 +142,11 @@ func runC15(stream []byte, cs c15Case, rng *rand.Rand) (key, msg string, msgsSee
 		}
 		if cs.Variant == "error" {
 			return errors.Is(err, fakenet.ErrInjected)
+		}
+		if cs.Variant == "timeout" {
+			// (the connection re-wraps temporary network errors; what matters is a timeout error)
+			ne, ok := err.(net.Error)
+			return ok && ne.Timeout()
 		}
 		return strings.Contains(err.Error(), "unexpected EOF")
 	}
@@ -400,7 +424,7 @@ func genC15Stream(rng *rand.Rand) (stream []byte, kind string) {
 func TestC15(t *testing.T) {
 	r := rep.New(t, "C15")
 	defer r.Flush()
-	r.Rule("corpus of byte streams (valid frame sequences with minimal/16/64-bit forms, single-bit mutations, random bytes, 64-bit lengths up to 2^64-1); each stream is cut at EVERY offset and ended by EOF and by an injected error, x read limits {0,1,125,126,200,65535} x consumption {all, partial then NextReader, zero-length reads, the one-call ReadMessage}, and after every NextReader the previous message's (stale) reader is read again; every return value of the real reader is checked against a reference parse; distinct = (corpus kind, cut class, variant, limit, pattern, outcome class)")
+	r.Rule("corpus of byte streams (valid frame sequences with minimal/16/64-bit forms, single-bit mutations, random bytes, 64-bit lengths up to 2^64-1); each stream is cut at EVERY offset and ended by EOF, by an injected error, and by a transient read timeout after which the application sets a new deadline (the rest of the stream still available), x read limits {0,1,125,126,200,65535} x consumption {all, partial then NextReader, zero-length reads, the one-call ReadMessage}, and after every NextReader the previous message's (stale) reader is read again; every return value of the real reader is checked against a reference parse; distinct = (corpus kind, cut class, variant, limit, pattern, outcome class)")
 	r.Assume("the documented guard (panic after 1000 reads of a failed connection) is never approached: at most 5 reads follow a failure")
 	nStreams := r.N(600, 40000)
 	rng := r.Rand(15)
@@ -410,7 +434,7 @@ func TestC15(t *testing.T) {
 		stream, kind := genC15Stream(rng)
 		r.ObsSet("streams", string(stream))
 		for cut := 0; cut <= len(stream); cut++ {
-			for _, variant := range []string{"eof", "error"} {
+			for _, variant := range []string{"eof", "error", "timeout"} {
 				// two (limit, pattern) draws per cut/variant in quick, all limits in thorough
 				draws := 2
 				if r.Thorough() {
